@@ -67,7 +67,10 @@ def run(ctx):
         if 'read_exc' in r:
             hist['rejected'] += 1
             cls = {'RINGSyntaxError': 1, 'RINGReaderError': 2, 'NotImplementedError': 3}.get(r['read_exc'], 4)
-            if cls == 4:
+            if cls == 4 and r['read_exc'] in ('IndexError', 'AssertionError') and ringgen.has_group_or_duplicates(t):
+                ctx.violate('rule-group-duplicates', 'a rule with a reactant group or a duplicated reactant cannot be read (%s)' % r['read_exc'],
+                            {'op': 'run_rule', 'text': t, 'smiles': []}, 'query or RING error', r)
+            elif cls == 4:
                 ctx.violate('rule-read-exc:%s' % r['read_exc'], 'reading a rule text escaped with %s' % r['read_exc'], {'op': 'run_rule', 'text': t, 'smiles': []},
                             'query or RING error', r)
             crow.append((t, cls))
